@@ -58,6 +58,7 @@ type Verifier struct {
 	siteCount    map[string]int
 	negRefs      int
 	caseTag      string
+	typeCodes    map[string]int
 	nonNegSeen   map[int]bool
 	assumed      map[string]bool
 	topFrame     *Frame
@@ -282,6 +283,8 @@ func (v *Verifier) execStmt(fr *Frame, st *State, s ast.Stmt) []*State {
 		return v.execIf(fr, st, x)
 	case *ast.SwitchStmt:
 		return v.execSwitch(fr, st, x, "")
+	case *ast.TypeSwitchStmt:
+		return v.execTypeSwitch(fr, st, x, "")
 	case *ast.ForStmt:
 		return v.execFor(fr, st, x, "")
 	case *ast.RangeStmt:
@@ -1039,5 +1042,15 @@ func (v *Verifier) execRange(fr *Frame, st *State, x *ast.RangeStmt, label strin
 		v.eng.store(s, VarLoc{idxCell}, v.binop(fr, s, token.ADD, cur, UntypedConst{mkInt(1)}, x.Pos()))
 		return []*State{s}
 	}
+	// invariants can name the iteration index of a range loop without a key variable: rangeIndex
+	prevIdx, hadIdx := fr.byName["rangeIndex"]
+	fr.byName["rangeIndex"] = idxCell
+	defer func() {
+		if hadIdx {
+			fr.byName["rangeIndex"] = prevIdx
+		} else {
+			delete(fr.byName, "rangeIndex")
+		}
+	}()
 	return v.execLoop(fr, st, x, x.Pos(), label, cond, x.Body.List, post)
 }
